@@ -17,9 +17,12 @@ var (
 	rtReverter = mustHex("602a60005560006000fd")
 	// runtime: JUMPDEST; PUSH1 0; JUMP  (burns all gas)
 	rtBurner = mustHex("5b600056")
-	// runtime: forwarder. calldata = [target (32 bytes)][revert flag (32 bytes)][payload]:
-	// CALLs target with payload; REVERTs if the flag is non-zero, else returns the call's return data
-	rtForwarder = mustHex("6040360380604060003760006000826000600060003" + "55af1602035602857" + "3d600060003e3d6000f3" + "5b60006000fd")
+	// runtime: forwarder. calldata = [target (32 bytes)][mode (32 bytes)][payload]: mode 0 CALLs target
+	// with the payload (value 0) and returns the call's return data; 1 CALLs and then REVERTs;
+	// 2 STATICCALLs; 3 DELEGATECALLs; 5 CALLs passing on the value it received (2, 3 and 5 return the
+	// return data). A failed inner call is swallowed: the forwarder returns normally with the (empty)
+	// return data. Assembled by hand (see DESIGN.md §13).
+	rtForwarder = mustHex("604036038060406000376020358060021460335780600314605457806005146043576000600083600060006000355af16061565b600060008360006000355afa6061565b60006000836000346000355af16061565b600060008360006000355af45b506001146073573d600060003e3d6000f35b60006000fd")
 )
 
 func mustHex(s string) []byte {
@@ -43,7 +46,9 @@ func init() {
 	// S price spec: "" ok, "low" below base fee / min gas price, "zero", "high";
 	// D nonce offset (0 correct, 1 gap, -1 replayed nonce);
 	// E payload: 0 transfer, 1 deploy writer, 2 deploy reverter, 3 deploy burner, 4 deploy forwarder,
-	//            5 call last deployed contract, 6 call with garbage data, 7 transfer more than the balance
+	//            5 call last deployed contract, 6 call with garbage data, 7 transfer more than the balance,
+	//            8 call a stateful precompile (B) with 0..3 bytes of calldata (C), 9 value within the
+	//            balance but value + gas limit x price above it
 	extraBuilders["etx"] = func(r *Run, ctx sdk.Context, op Op) (*BuiltTx, error) {
 		w := r.W
 		u := w.Users[((op.A%len(w.Users))+len(w.Users))%len(w.Users)]
@@ -96,6 +101,20 @@ func init() {
 		case 7:
 			bal := app.BankKeeper.GetBalance(ctx, u.Addr, "hua").Amount.BigInt()
 			value = new(big.Int).Add(bal, big.NewInt(1))
+		case 8:
+			// a stateful precompile called with fewer than the four bytes of a method selector
+			pc := []string{"0x0000000000000000000000000000000000000804", "0x0000000000000000000000000000000000000805", "0x0000000000000000000000000000000000000806", "0x0000000000000000000000000000000000000809", "0x0000000000000000000000000000000000000901"}[((op.B%5)+5)%5]
+			a := common.HexToAddress(pc)
+			to = &a
+			data = []byte{0xde, 0xad, 0xbe}[:((op.C%4)+4)%4]
+		case 9:
+			// the balance covers the value but not value + gas limit x price
+			bal := app.BankKeeper.GetBalance(ctx, u.Addr, "hua").Amount.BigInt()
+			fee := new(big.Int).Mul(price, new(big.Int).SetUint64(gas))
+			value = new(big.Int).Sub(bal, new(big.Int).Quo(fee, big.NewInt(2)))
+			if value.Sign() < 0 {
+				value = big.NewInt(0)
+			}
 		}
 		if to == nil && op.E != 7 && op.Amt == "" {
 			value = big.NewInt(0)
